@@ -1,5 +1,601 @@
 import DesperModel.Dict
 import DesperModel.Proto
+import DesperModel.Disp
+/-
+  Model of `desper/logic/world.py` (World, Processor) with `desper/bisect.py`, the Controller
+  shorthands of `desper/logic/__init__.py` and the dispatcher of `desper/events.py` reduced to
+  what a World with *passive* callbacks can observe of it (registered set, known event names,
+  enabled flag, FIFO of postponed events).
+
+  Mirrors (after the `fix:` commits recorded in /verif/known_findings.jsonl):
+    create_entity            world.py:62-123     add_component        world.py:125-169
+    _on_single_dispatch      world.py:171-179    has_component        world.py:181-201
+    entity_exists/entities   world.py:203-218    get/_get             world.py:220-251
+    get_component(s)         world.py:253-281    delete_entity        world.py:283-304
+    _clear_dead_entities     world.py:306-318    remove_component     world.py:320-378
+    add_processor            world.py:380-427    remove_processor     world.py:429-471
+    get_processor/processors world.py:473-492    process              world.py:494-504
+    clear                    world.py:506-525    bisect_right/insort  bisect.py:4-50
+
+  Callbacks are passive log entries (they may raise, scripted per invocation, but they do not
+  call back into the world): histories in which lifecycle callbacks mutate the world are covered
+  by the dispatcher model (Disp.lean), not here.
+-/
 namespace Desper.World
-def runScenario (_lines : List String) : List String := ["not-implemented"]
+open Desper
+
+abbrev Obj := Nat
+abbrev Ty := Nat
+abbrev Ent := Nat
+abbrev Mapping := Disp.Mapping
+abbrev Outcome := Disp.Outcome
+
+structure WClass where
+  bases : List Ty
+  isProc : Bool := false
+  /-- class-level `priority` (processors) -/
+  prio : Int := 0
+  /-- subclass of `desper.Controller`: its `on_add` records entity and world -/
+  isCtrl : Bool := false
+  /-- subclass of `desper.OnUpdateProcessor` -/
+  isOnUpdate : Bool := false
+deriving Repr, Inhabited
+
+structure Universe where
+  classes : List WClass
+  /-- `cls.__events__` (none: the class is not an event handler) -/
+  mapping : Ty → Option Mapping
+  objTy : Obj → Option Ty
+  /-- scripted failure of the k-th invocation of a method of an object -/
+  raises : Obj → String → Nat → Option String
+
+def Universe.cls (U : Universe) (t : Ty) : WClass := (U.classes[t]?).getD { bases := [] }
+
+/-- `T.__subclasses__()`: the classes naming `T` as a base, in creation order.  A base is created
+before its subclasses, hence only later indices can qualify. -/
+def subs (U : Universe) (t : Ty) : List Ty :=
+  (List.range U.classes.length).filter (fun k => decide (t < k) && (U.cls k).bases.contains t)
+
+/-- pop order of the `fringe` loops (world.py:190-196, 239-251, …): pop from the end, then
+`fringe += subtype.__subclasses__()` — a pre-order walk taking children from last to first.
+`h` bounds the depth; `visit` passes the number of classes above `t`, which is enough because
+subclasses have larger indices. -/
+def desc (U : Universe) : Nat → Ty → List Ty
+  | 0, t => [t]
+  | h + 1, t => t :: ((subs U t).reverse.flatMap (desc U h))
+
+def visit (U : Universe) (t : Ty) : List Ty := desc U (U.classes.length - t) t
+
+/-- postponed events -/
+inductive QEv where
+  /-- `on_single_dispatch(event, handler, *args)`; `ent = none` for processors -/
+  | relay (event : String) (h : Obj) (ent : Option Ent)
+  | plain (ev : String) (args : String)
+deriving Repr, DecidableEq, Inhabited
+
+inductive Entry where
+  /-- `on_add` / `on_remove` of a component (ent = some e) or processor (ent = none) -/
+  | life (event : String) (o : Obj) (meth : String) (ent : Option Ent)
+  /-- delivery of a plain event dispatched on the world -/
+  | probe (o : Obj) (meth : String) (args : String)
+  /-- `Processor.process(dt)` -/
+  | proc (p : Obj) (dt : String)
+  | res (out : Outcome)
+  | ret (v : String)
+  | out (line : String)
+deriving Repr, DecidableEq, Inhabited
+
+structure St where
+  ents : Dict Ent (Dict Ty Obj) := []
+  comps : Dict Ty (List Ent) := []
+  dead : List Ent := []
+  /-- next value of the default `count(1)` id generator -/
+  nextId : Nat := 1
+  procs : Dict Ty Obj := []
+  sorted : List Obj := []
+  /-- instance-level `priority` (set by an explicit priority argument) -/
+  prio : Dict Obj Int := []
+  /-- processors whose `.world` was set to this world -/
+  pworld : List Obj := []
+  /-- handlers registered in the dispatcher -/
+  registered : List Obj := []
+  /-- the world listens to itself for `on_single_dispatch` (world.py:50, 524-525) -/
+  selfReg : Bool := true
+  /-- keys of `_events` -/
+  known : List String := ["on_single_dispatch"]
+  enabled : Bool := true
+  queue : List QEv := []
+  calls : Dict (Obj × String) Nat := []
+  /-- what `Controller.on_add` recorded -/
+  ctrl : Dict Obj Ent := []
+  sweepHints : List (List Ent) := []
+  log : List Entry := []
+deriving Inhabited
+
+def onAdd := "on_add"
+def onRemove := "on_remove"
+def onSingle := "on_single_dispatch"
+
+def Universe.mapOf (U : Universe) (o : Obj) : Option Mapping := (U.objTy o).bind U.mapping
+
+def row (s : St) (e : Ent) : Dict Ty Obj := (Dict.get? s.ents e).getD []
+def idx (s : St) (t : Ty) : List Ent := (Dict.get? s.comps t).getD []
+
+/-- a callback: log entry, invocation counter, scripted failure -/
+def callCb (U : Universe) (s : St) (o : Obj) (meth : String) (e : Entry) : St × Outcome :=
+  let k := (Dict.get? s.calls (o, meth)).getD 0
+  let s := { s with calls := Dict.set s.calls (o, meth) (k + 1), log := e :: s.log }
+  match U.raises o meth k with
+  | some x => (s, .raised x)
+  | none => (s, .ok)
+
+/-- `add_handler` (events.py:50-69), abstracted to the registered set and the known names -/
+def addHandler (s : St) (o : Obj) (m : Mapping) : St :=
+  { s with registered := setAdd s.registered o,
+           known := m.foldl (fun k p => setAdd k p.1) s.known }
+
+def removeHandler (s : St) (o : Obj) : St := { s with registered := s.registered.filter (· ≠ o) }
+
+/-- deliver a plain event to every registered listener mapping it (listeners are passive, so the
+set iteration order is not observable; the model uses ascending ids) -/
+def deliverPlain (U : Universe) (s : St) (ev args : String) : St × Outcome :=
+  (Proto.sortNats s.registered).foldl (fun (acc : St × Outcome) o =>
+    match acc.2 with
+    | .ok =>
+      match (U.mapOf o).bind (fun m => Dict.get? m ev) with
+      | some meth => callCb U acc.1 o meth (.probe o meth args)
+      | none => acc
+    | _ => acc) (s, .ok)
+
+/-- `World.dispatch(ev, args)` for a plain event (events.py:97-121) -/
+def dispatchPlain (U : Universe) (s : St) (ev args : String) : St × Outcome :=
+  if !s.known.contains ev then (s, .ok)
+  else if !s.enabled then ({ s with queue := s.queue ++ [.plain ev args] }, .ok)
+  else deliverPlain U s ev args
+
+/-- lifecycle callback of `o` for `event` with the owner `ent`: direct call when enabled, relay
+through `on_single_dispatch` when disabled (world.py:108-121 and its four replicas) -/
+def lifecycle (U : Universe) (s : St) (event : String) (o : Obj) (m : Mapping) (ent : Option Ent) :
+    St × Outcome :=
+  match Dict.get? m event with
+  | none => (s, .ok)
+  | some meth =>
+    if s.enabled then
+      let s := if event = onAdd && (U.cls ((U.objTy o).getD 0)).isCtrl then
+        match ent with
+        | some e => { s with ctrl := Dict.set s.ctrl o e }
+        | none => s
+        else s
+      callCb U s o meth (.life event o meth ent)
+    else if s.known.contains onSingle then
+      ({ s with queue := s.queue ++ [.relay event o ent] }, .ok)
+    else (s, .ok)
+
+/-- `remove_component` (world.py:320-378): first match in fringe order -/
+def removeComponent (U : Universe) (s : St) (e : Ent) (t : Ty) : St × Outcome × Option Obj :=
+  match (visit U t).find? (fun st => (Dict.get? (row s e) st).isSome) with
+  | none => (s, .ok, none)
+  | some st =>
+    match Dict.get? (row s e) st with
+    | none => (s, .ok, none)
+    | some removed =>
+      let ix := (idx s st).filter (· ≠ e)
+      let comps := if ix.isEmpty then Dict.erase s.comps st else Dict.set s.comps st ix
+      let r := Dict.erase (row s e) st
+      let (ents, dead) := if r.isEmpty then (Dict.erase s.ents e, s.dead.filter (· ≠ e))
+        else (Dict.set s.ents e r, s.dead)
+      let s := { s with comps := comps, ents := ents, dead := dead }
+      match U.mapOf removed with
+      | none => (s, .ok, some removed)
+      | some m =>
+        match lifecycle U s onRemove removed m (some e) with
+        | (s', .ok) => (removeHandler s' removed, .ok, some removed)
+        | (s', o) => (s', o, some removed)
+
+/-- remove the given component types of an entity one by one, stopping at a failure -/
+def removeTypes (U : Universe) (s : St) (e : Ent) : List Ty → St × Outcome
+  | [] => (s, .ok)
+  | t :: ts =>
+    match removeComponent U s e t with
+    | (s', .ok, _) => removeTypes U s' e ts
+    | (s', o, _) => (s', o)
+
+/-- event handling of a freshly attached component / processor (world.py:104-121, 152-169) -/
+def attachEvents (U : Universe) (s : St) (o : Obj) (ent : Option Ent) : St × Outcome :=
+  match U.mapOf o with
+  | none => (s, .ok)
+  | some m => lifecycle U (addHandler s o m) onAdd o m ent
+
+def attachAll (U : Universe) (s : St) (e : Ent) : List Obj → St × Outcome
+  | [] => (s, .ok)
+  | c :: cs =>
+    match attachEvents U s c (some e) with
+    | (s', .ok) => attachAll U s' e cs
+    | r => r
+
+/-- first value of `count(n)` that is not a key of `_entities` (world.py:77-81) -/
+def freshFrom (keys : List Ent) : Nat → Nat → Nat
+  | 0, n => n
+  | fuel + 1, n => if keys.contains n then freshFrom keys fuel (n + 1) else n
+
+def tyOf (U : Universe) (o : Obj) : Ty := (U.objTy o).getD 0
+
+/-- `create_entity` (world.py:62-123) -/
+def createEntity (U : Universe) (s : St) (id? : Option Ent) (cs : List Obj) : St × Outcome × Ent :=
+  let (e, s) := match id? with
+    | some e => (e, s)
+    | none =>
+      let n := freshFrom (Dict.keys s.ents) ((Dict.keys s.ents).length + 1) s.nextId
+      (n, { s with nextId := n + 1 })
+  -- replaced components (an imposed id may be in use)
+  let replaced := (Dict.keys (row s e)).filter (fun t => cs.any (fun c => tyOf U c = t))
+  match removeTypes U s e replaced with
+  | (s, .ok) =>
+    let s := cs.foldl (fun s c =>
+      let t := tyOf U c
+      { s with comps := Dict.set s.comps t (setAdd (idx s t) e),
+               ents := Dict.set s.ents e (Dict.set (row s e) t c) }) s
+    match attachAll U s e cs with
+    | (s, o) => (s, o, e)
+  | (s, o) => (s, o, e)
+
+/-- `add_component` (world.py:125-169) -/
+def addComponent (U : Universe) (s : St) (e : Ent) (c : Obj) : St × Outcome :=
+  let t := tyOf U c
+  let r := if (Dict.get? (row s e) t).isSome then
+      let x := removeComponent U s e t
+      (x.1, x.2.1)
+    else (s, Disp.Outcome.ok)
+  match r with
+  | (s, .ok) =>
+    let s := { s with comps := Dict.set s.comps t (setAdd (idx s t) e),
+                      ents := Dict.set s.ents e (Dict.set (row s e) t c) }
+    attachEvents U s c (some e)
+  | r => r
+
+/-- `delete_entity` (world.py:283-304) -/
+def deleteEntity (U : Universe) (s : St) (e : Ent) (immediate : Bool) : St × Outcome :=
+  if immediate then
+    match Dict.get? s.ents e with
+    | none => (s, .raised "KeyError")
+    | some r => removeTypes U s e (Dict.keys r)
+  else ({ s with dead := setAdd s.dead e }, .ok)
+
+def sweep (U : Universe) (s : St) : List Ent → St × Outcome
+  | [] => (s, .ok)
+  | e :: es =>
+    match Dict.get? s.ents e with
+    | none => (s, .raised "KeyError")
+    | some r =>
+      match removeTypes U s e (Dict.keys r) with
+      | (s', .ok) => sweep U s' es
+      | r => r
+
+def isPerm (a b : List Nat) : Bool := Proto.sortNats a == Proto.sortNats b
+
+/-- `_clear_dead_entities` (world.py:306-318); the iteration order of the set is taken from a
+validated hint -/
+def clearDead (U : Universe) (s : St) : St × Outcome :=
+  let (order, hints) := match s.sweepHints with
+    | h :: hs => (h, hs)
+    | [] => (s.dead, [])
+  if !isPerm order s.dead then (s, .badHint)
+  else sweep U { s with dead := [], sweepHints := hints } order
+
+def priority (U : Universe) (s : St) (p : Obj) : Int :=
+  (Dict.get? s.prio p).getD (U.cls (tyOf U p)).prio
+
+/-- `bisect_right` with a key (bisect.py:19-50): `while lo < hi` -/
+def bisectRight (keys : List Int) (x : Int) : Nat → Nat → Nat → Nat
+  | 0, lo, _ => lo
+  | fuel + 1, lo, hi =>
+    if lo < hi then
+      let mid := (lo + hi) / 2
+      if x < keys[mid]?.getD 0 then bisectRight keys x fuel lo mid
+      else bisectRight keys x fuel (mid + 1) hi
+    else lo
+
+def insort (U : Universe) (s : St) (p : Obj) : List Obj :=
+  let keys := s.sorted.map (priority U s)
+  let i := bisectRight keys (priority U s p) (keys.length + 1) 0 keys.length
+  s.sorted.take i ++ [p] ++ s.sorted.drop i
+
+/-- `remove_processor` (world.py:429-471) -/
+def removeProcessor (U : Universe) (s : St) (t : Ty) : St × Outcome × Option Obj :=
+  match (visit U t).find? (fun st => (Dict.get? s.procs st).isSome) with
+  | none => (s, .ok, none)
+  | some st =>
+    match Dict.get? s.procs st with
+    | none => (s, .ok, none)
+    | some removed =>
+      let s := { s with sorted := s.sorted.filter (fun p => tyOf U p ≠ st),
+                        procs := Dict.erase s.procs st }
+      match U.mapOf removed with
+      | none => (s, .ok, some removed)
+      | some m =>
+        match lifecycle U s onRemove removed m none with
+        | (s', .ok) => (removeHandler s' removed, .ok, some removed)
+        | (s', o) => (s', o, some removed)
+
+/-- `add_processor` (world.py:380-427) -/
+def addProcessor (U : Universe) (s : St) (p : Obj) (prio? : Option Int) : St × Outcome :=
+  let t := tyOf U p
+  let r := if (Dict.get? s.procs t).isSome then
+      let x := removeProcessor U s t
+      (x.1, x.2.1)
+    else (s, Disp.Outcome.ok)
+  match r with
+  | (s, .ok) =>
+    let s := match prio? with
+      | some v => { s with prio := Dict.set s.prio p v }
+      | none => s
+    let s := { s with sorted := insort U s p, procs := Dict.set s.procs t p,
+                      pworld := setAdd s.pworld p }
+    attachEvents U s p none
+  | r => r
+
+def getProcessor (U : Universe) (s : St) (t : Ty) : Option Obj :=
+  ((visit U t).findSome? (fun st => Dict.get? s.procs st))
+
+def runProcs (U : Universe) (s : St) (dt : String) : List Obj → St × Outcome
+  | [] => (s, .ok)
+  | p :: ps =>
+    match callCb U s p "process" (.proc p dt) with
+    | (s', .ok) =>
+      let r := if (U.cls (tyOf U p)).isOnUpdate then dispatchPlain U s' "on_update" dt else (s', .ok)
+      match r with
+      | (s'', .ok) => runProcs U s'' dt ps
+      | r => r
+    | r => r
+
+/-- `process` (world.py:494-504) -/
+def process (U : Universe) (s : St) (dt : String) : St × Outcome :=
+  match clearDead U s with
+  | (s', .ok) => runProcs U s' dt s'.sorted
+  | r => r
+
+def removeProcs (U : Universe) (s : St) : List Obj → St × Outcome
+  | [] => (s, .ok)
+  | p :: ps =>
+    match removeProcessor U s (tyOf U p) with
+    | (s', .ok, _) => removeProcs U s' ps
+    | (s', o, _) => (s', o)
+
+def deleteAll (U : Universe) (s : St) : List Ent → St × Outcome
+  | [] => (s, .ok)
+  | e :: es =>
+    match deleteEntity U s e true with
+    | (s', .ok) => deleteAll U s' es
+    | r => r
+
+/-- `clear` (world.py:506-525) -/
+def clear (U : Universe) (s : St) : St × Outcome :=
+  match deleteAll U s (Dict.keys s.ents) with
+  | (s, .ok) =>
+    let s := { s with dead := [] }
+    match removeProcs U s s.sorted with
+    | (s, .ok) =>
+      -- id generator restarted; EventDispatcher.clear(); the world keeps listening to itself
+      ({ s with nextId := 1, queue := [], registered := [], known := [onSingle], selfReg := true,
+                enabled := true }, .ok)
+    | r => r
+  | r => r
+
+/-- delivery of one postponed event -/
+def deliverQ (U : Universe) (s : St) : QEv → St × Outcome
+  | .plain ev args => if s.known.contains ev then deliverPlain U s ev args else (s, .ok)
+  | .relay event h ent =>
+    -- dispatch('on_single_dispatch', …) reaches `_on_single_dispatch` of the world (world.py:171-179)
+    if !(s.known.contains onSingle && s.selfReg) then (s, .ok)
+    else
+      match (U.mapOf h).bind (fun m => Dict.get? m event) with
+      | none => (s, .raised "KeyError")
+      | some meth =>
+        let s := if event = onAdd && (U.cls (tyOf U h)).isCtrl then
+          match ent with
+          | some e => { s with ctrl := Dict.set s.ctrl h e }
+          | none => s
+          else s
+        callCb U s h meth (.life event h meth ent)
+
+/-- the `dispatch_enabled = True` loop (events.py:133-139); callbacks are passive, so nothing
+can disable dispatching in between and the loop is a recursion on the queue -/
+def releaseQ (U : Universe) (s : St) : List QEv → St × Outcome
+  | [] => ({ s with queue := [] }, .ok)
+  | q :: qs =>
+    match deliverQ U { s with queue := qs } q with
+    | (s', .ok) => releaseQ U s' qs
+    | r => r
+
+def setEnabled (U : Universe) (s : St) (b : Bool) : St × Outcome :=
+  let s := { s with enabled := b }
+  if b then releaseQ U s s.queue else (s, .ok)
+
+/-! ### queries -/
+
+def hasComponent (U : Universe) (s : St) (e : Ent) (t : Ty) : Bool :=
+  (visit U t).any (fun st => (Dict.get? (row s e) st).isSome)
+
+def getComponent (U : Universe) (s : St) (e : Ent) (t : Ty) : Option Obj :=
+  (visit U t).findSome? (fun st => Dict.get? (row s e) st)
+
+def getComponents (s : St) (e : Ent) : List Obj := Dict.values (row s e)
+
+def entityExists (s : St) (e : Ent) : Bool := (Dict.get? s.ents e).isSome && !s.dead.contains e
+
+def entities (s : St) : List Ent := (Dict.keys s.ents).filter (fun e => !s.dead.contains e)
+
+/-- `_get` (world.py:229-251): every visited subtype once -/
+def get (U : Universe) (s : St) (t : Ty) : List (Ent × Obj) :=
+  (visit U t).eraseDups.flatMap fun st =>
+    (idx s st).filterMap fun e => (Dict.get? (row s e) st).map fun c => (e, c)
+
+inductive Op where
+  | create (id? : Option Ent) (cs : List Obj)
+  | add (e : Ent) (c : Obj)
+  | remove (e : Ent) (t : Ty)
+  | delete (e : Ent) (immediate : Bool)
+  | process (dt : String)
+  | clear
+  | addProc (p : Obj) (prio? : Option Int)
+  | rmProc (t : Ty)
+  | enable (b : Bool)
+  | dispatch (ev : String) (args : String)
+deriving Repr, DecidableEq, Inhabited
+
+/-- one top-level operation: new state, outcome and returned value (as a token) -/
+def step (U : Universe) (s : St) : Op → St × Outcome × String
+  | .create id? cs => let r := createEntity U s id? cs; (r.1, r.2.1, toString r.2.2)
+  | .add e c => let r := addComponent U s e c; (r.1, r.2, "-")
+  | .remove e t =>
+    let r := removeComponent U s e t
+    (r.1, r.2.1, match r.2.2 with | some c => toString c | none => "None")
+  | .delete e imm => let r := deleteEntity U s e imm; (r.1, r.2, "-")
+  | .process dt => let r := process U s dt; (r.1, r.2, "-")
+  | .clear => let r := clear U s; (r.1, r.2, "-")
+  | .addProc p prio? => let r := addProcessor U s p prio?; (r.1, r.2, "-")
+  | .rmProc t =>
+    let r := removeProcessor U s t
+    (r.1, r.2.1, match r.2.2 with | some c => toString c | none => "None")
+  | .enable b => let r := setEnabled U s b; (r.1, r.2, "-")
+  | .dispatch ev args => let r := dispatchPlain U s ev args; (r.1, r.2, "-")
+
+def run (U : Universe) (s : St) (ops : List Op) : St := ops.foldl (fun s op => (step U s op).1) s
+
+end Desper.World
+
+/-! ### line protocol -/
+namespace Desper.World
+open Desper Proto
+
+structure Parsed where
+  classes : List WClass := []
+  decls : List Disp.ClassDecl := []
+  /-- `__events__` per class, built like `Disp.classTable` but with `Controller`'s own mapping
+  under root controller classes -/
+  maps : List (Option Mapping) := []
+  objTy : Dict Obj Ty := []
+  raises : Dict (Obj × String × Nat) String := []
+  sweeps : List (List Ent) := []
+  entUniverse : List Ent := []
+  ops : List (Option Op) := []     -- none = snapshot
+  bad : Bool := false
+
+def kv (key : String) (tok : String) : Option String := Disp.stripPrefix (key ++ "=") tok
+
+def parseClass (p : Parsed) (cid kind b n k pr : String) : Parsed :=
+  match cid.toNat?, (kv "bases" b).bind natList?, kv "names" n, (kv "kw" k).bind Disp.parsePairs,
+        (kv "prio" pr).bind String.toInt?, kv "kind" kind with
+  | some c, some bs, some ns, some kw, some prio, some kd =>
+    if c ≠ p.classes.length then { p with bad := true } else
+    let inherited := (Disp.inheritedOf p.maps bs).orElse fun _ =>
+      if kd = "ctrl" then some [("on_add", "on_add")] else none
+    let m := Disp.decorate inherited (splitList ns) kw
+    { p with classes := p.classes ++ [{ bases := bs, isProc := kd = "p" || kd = "upd", prio := prio,
+                                        isCtrl := kd = "ctrl", isOnUpdate := kd = "upd" }],
+             maps := p.maps ++ [m] }
+  | _, _, _, _, _, _ => { p with bad := true }
+
+def parseEnt (s : String) : Option (Option Ent) :=
+  if s = "auto" then some none else s.toNat?.map some
+
+def parseOp : List String → Option (Option Op)
+  | ["create", id, cs] => do
+    let i ← parseEnt id
+    let l ← natList? cs
+    pure (some (.create i l))
+  | ["add", e, c] => do pure (some (.add (← e.toNat?) (← c.toNat?)))
+  | ["remove", e, t] => do pure (some (.remove (← e.toNat?) (← t.toNat?)))
+  | ["delete", e, i] => do pure (some (.delete (← e.toNat?) (← bool? i)))
+  | ["process", dt] => some (some (.process dt))
+  | ["clear"] => some (some .clear)
+  | ["addproc", p, pr] => do
+    let p ← p.toNat?
+    if pr = "-" then pure (some (.addProc p none)) else pure (some (.addProc p (some (← pr.toInt?))))
+  | ["rmproc", t] => do pure (some (.rmProc (← t.toNat?)))
+  | ["enable", b] => do pure (some (.enable (← bool? b)))
+  | ["dispatch", ev, args] => some (some (.dispatch ev args))
+  | ["snap"] => some none
+  | _ => none
+
+def parseLine (p : Parsed) (line : String) : Parsed :=
+  match tokens line with
+  | ["class", cid, kind, b, n, k, pr] => parseClass p cid kind b n k pr
+  | "obj" :: o :: c :: _ =>
+    match o.toNat?, (kv "class" c).bind String.toNat? with
+    | some o, some c => { p with objTy := Dict.set p.objTy o c }
+    | _, _ => { p with bad := true }
+  | ["raise", o, m, k, x] =>
+    match o.toNat?, k.toNat? with
+    | some o, some k => { p with raises := Dict.set p.raises (o, m, k) x }
+    | _, _ => { p with bad := true }
+  | ["hint", "sweep", l] =>
+    match natList? l with
+    | some es => { p with sweeps := p.sweeps ++ [es] }
+    | none => { p with bad := true }
+  | ["ents", l] =>
+    match natList? l with
+    | some es => { p with entUniverse := es }
+    | none => { p with bad := true }
+  | "op" :: rest =>
+    match parseOp rest with
+    | some op => { p with ops := p.ops ++ [op] }
+    | none => { p with bad := true }
+  | [] => p
+  | _ => { p with bad := true }
+
+def Parsed.universe (p : Parsed) : Universe :=
+  { classes := p.classes
+    mapping := fun t => (p.maps[t]?).join
+    objTy := fun o => Dict.get? p.objTy o
+    raises := fun o m k => Dict.get? p.raises (o, m, k) }
+
+def showEntry : Entry → List String
+  | .life _ o m (some e) => [s!"cb {o} {m} e{e}"]
+  | .life _ o m none => [s!"cb {o} {m} _"]
+  | .probe o m a => [s!"cb {o} {m} {a}"]
+  | .proc p dt => [s!"cb {p} process {dt}"]
+  | .res o => [s!"res {Disp.showOutcome o}"]
+  | .ret v => [s!"ret {v}"]
+  | .out l => [l]
+
+def showOpt : Option Nat → String
+  | some n => toString n
+  | none => "None"
+
+def snapshot (U : Universe) (p : Parsed) (s : St) : List String :=
+  let tys := List.range U.classes.length
+  let ctys := tys.filter (fun t => !(U.cls t).isProc)
+  let ptys := tys.filter (fun t => (U.cls t).isProc)
+  let pairKey := fun (x : Ent × Obj) => x.1 * 100000 + x.2
+  (ctys.map fun t =>
+      let l := sortNats ((get U s t).map pairKey)
+      s!"get {t} " ++ joinList (l.map fun k => s!"{k / 100000}:{k % 100000}")) ++
+  (p.entUniverse.flatMap fun e =>
+      [s!"row {e} {showNats (sortNats (getComponents s e))}",
+       s!"exists {e} {showBool (entityExists s e)}"] ++
+      (ctys.map fun t => s!"has {e} {t} {showBool (hasComponent U s e t)} {showOpt (getComponent U s e t)}")) ++
+  [s!"entities {showNats (sortNats (entities s))}",
+   s!"procs {showNats s.sorted}"] ++
+  (ptys.map fun t => s!"gp {t} {showOpt (getProcessor U s t)}") ++
+  [s!"pw {showNats (sortNats s.pworld)}"] ++
+  ((Dict.keys p.objTy).filterMap fun o =>
+      if (U.mapOf o).isSome then some s!"ish {o} {showBool (s.registered.contains o)}" else none) ++
+  ((Dict.keys p.objTy).filterMap fun o =>
+      if (U.cls (tyOf U o)).isCtrl then some s!"ctl {o} {showOpt (Dict.get? s.ctrl o)}" else none) ++
+  [s!"enabled {showBool s.enabled}"]
+
+def runScenario (lines : List String) : List String :=
+  let p := lines.foldl parseLine {}
+  if p.bad then ["bad-op"] else
+  let U := p.universe
+  let s0 : St := { sweepHints := p.sweeps }
+  let s := p.ops.foldl (fun (s : St) op =>
+    match op with
+    | none => { s with log := (snapshot U p { s with log := [] }).reverse.map Entry.out ++ s.log }
+    | some op =>
+      let r := step U s op
+      { r.1 with log := Entry.ret r.2.2 :: Entry.res r.2.1 :: r.1.log }) s0
+  s.log.reverse.flatMap showEntry
+
 end Desper.World
